@@ -121,9 +121,278 @@ def gen_lean():
             "/-- `operations[<mask>] = CigarOp.X` assignments of `write_alignment_to_cigar` (and the `np.full` default). -/",
             "def writerTable : List (String × String) := [" + ", ".join(f'("{m}", "{n}")' for m, n in writer) + "]",
             "/-- `clip_op = A if <test> else B` -/",
-            f'def clipOp : String × String × String := ("{clip[0]}", "{clip[1]}", "{clip[2]}")',
-            "end BiotiteModel.Gen.C11", ""]
+            f'def clipOp : String × String × String := ("{clip[0]}", "{clip[1]}", "{clip[2]}")']
+    body += _gen_facts(tree)
+    body += ["end BiotiteModel.Gen.C11", ""]
     return {"BiotiteModel/Gen/C11.lean": "\n".join(body)}
+
+
+# ---- pass 7: literals, guards, defaults, order of checks, exception classes (cigar.py, alignment.py, fasta/convert.py, multiple.pyx)
+_CMP = {ast.Lt: "Lt", ast.LtE: "LtE", ast.Gt: "Gt", ast.GtE: "GtE", ast.Eq: "Eq", ast.NotEq: "NotEq", ast.In: "In", ast.Is: "Is", ast.IsNot: "IsNot"}
+
+
+def _fn(tree, name, cls=None):
+    body = tree.body
+    if cls is not None:
+        c = next((n for n in tree.body if isinstance(n, ast.ClassDef) and n.name == cls), None)
+        if c is None:
+            raise ValueError(f"class {cls} not found")
+        body = c.body
+    f = next((n for n in body if isinstance(n, ast.FunctionDef) and n.name == name), None)
+    if f is None:
+        raise ValueError(f"function {name} not found")
+    return f
+
+
+def _defaults(f):
+    """[(parameter, literal default as text)] of a FunctionDef"""
+    args = f.args.args
+    ds = f.args.defaults
+    out = []
+    for a, d in zip(args[len(args) - len(ds):], ds):
+        out.append((a.arg, ast.unparse(d)))
+    return out
+
+
+def _raises(f):
+    """exception class names of the `raise` statements, in source order"""
+    out = []
+    for n in ast.walk(f):
+        if isinstance(n, ast.Raise):
+            e = n.exc
+            nm = e.func.id if isinstance(e, ast.Call) and isinstance(e.func, ast.Name) else e.id if isinstance(e, ast.Name) else None
+            if nm is None:
+                raise ValueError("unexpected raise in " + f.name)
+            out.append((n.lineno, nm))
+    return [nm for _, nm in sorted(out)]
+
+
+def _if_raising(f, exc=None):
+    """the `if <test>: raise X` statements of a function in source order: [(test node, exception name)]"""
+    out = []
+    for n in ast.walk(f):
+        if isinstance(n, ast.If) and any(isinstance(b, ast.Raise) for b in n.body):
+            r = next(b for b in n.body if isinstance(b, ast.Raise))
+            nm = r.exc.func.id if isinstance(r.exc, ast.Call) else r.exc.id
+            out.append((n.lineno, n.test, nm))
+    return [(t, nm) for _, t, nm in sorted(out, key=lambda x: x[0])]
+
+
+def _cmp(test):
+    """(left text, operator name, right text) of a simple comparison"""
+    if not (isinstance(test, ast.Compare) and len(test.ops) == 1 and type(test.ops[0]) in _CMP):
+        raise ValueError("unexpected guard " + ast.unparse(test))
+    return ast.unparse(test.left), _CMP[type(test.ops[0])], ast.unparse(test.comparators[0])
+
+
+def _lstr(x):
+    return '"' + x.replace("\\", "\\\\").replace('"', '\\"') + '"'
+
+
+def _lpairs(ps):
+    return "[" + ", ".join("(" + ", ".join(_lstr(str(y)) for y in p) + ")" for p in ps) + "]"
+
+
+def _gen_facts(cigar_tree):
+    import re
+
+    from common import paths
+    out = []
+    # ---------------- cigar.py
+    w = _fn(cigar_tree, "write_alignment_to_cigar")
+    r = _fn(cigar_tree, "read_alignment_from_cigar")
+    out += ["/-- default arguments of `write_alignment_to_cigar` -/",
+            "def writerDefaults : List (String × String) := " + _lpairs(_defaults(w)),
+            "def readerDefaults : List (String × String) := " + _lpairs(_defaults(r))]
+    guards = _if_raising(w)
+    gl = []
+    for t, nm in guards:
+        if isinstance(t, ast.Compare):
+            gl.append(("cmp",) + _cmp(t) + (nm,))
+        else:
+            gl.append(("any", ast.unparse(t), "", "", nm))
+    # classify the numpy guards by what they test, independent of variable names
+    kinds = []
+    for g in gl:
+        if g[0] == "cmp":
+            kinds.append((g[2], g[3] if g[3] in ("0",) else "var", g[4]))
+        else:
+            txt = g[1]
+            if "np.diff" in txt:
+                m = re.search(r"np\.diff\(.*\)\s*!=\s*(-?\d+)", txt)
+                kinds.append(("diff-not", m.group(1) if m else "?", g[4]))
+            elif "~" in txt:
+                kinds.append(("mask-and-not", "", g[4]))
+            elif "&" in txt:
+                kinds.append(("mask-and", "", g[4]))
+            else:
+                raise ValueError("unexpected guard in write_alignment_to_cigar: " + txt)
+    out += ["/-- the refusing guards of `write_alignment_to_cigar` in source order: (kind/operator, constant, exception) -/",
+            "def writerGuards : List (String × String × String) := " + _lpairs(kinds),
+            "def readerRaises : List String := [" + ", ".join(_lstr(x) for x in _raises(r)) + "]"]
+    # clipped bases and terminal trimming
+    fc = _fn(cigar_tree, "_find_clipped_bases")
+    asg = {ast.unparse(n.targets[0]): n.value for n in ast.walk(fc) if isinstance(n, ast.Assign) and len(n.targets) == 1}
+    if "start_clip_length" not in asg or "end_clip_length" not in asg:
+        raise ValueError("_find_clipped_bases: clip lengths not found")
+    sc, ec = asg["start_clip_length"], asg["end_clip_length"]
+    if not (isinstance(sc, ast.Subscript) and isinstance(ec, ast.BinOp) and isinstance(ec.op, ast.Sub) and isinstance(ec.left, ast.BinOp)
+            and isinstance(ec.left.op, ast.Sub) and isinstance(ec.left.left, ast.Call) and ast.unparse(ec.left.left.func) == "len"
+            and isinstance(ec.left.right, ast.Subscript) and isinstance(ec.right, ast.Constant)):
+        raise ValueError("_find_clipped_bases: unexpected formula " + ast.unparse(ec))
+    out += ["/-- `start_clip = seg_trace[startClipIndex]`, `end_clip = len(segment) - seg_trace[endClipIndex] - endClipMinus` -/",
+            f"def startClipIndex : Int := {int(ast.literal_eval(sc.slice))}",
+            f"def endClipIndex : Int := {int(ast.literal_eval(ec.left.right.slice))}",
+            f"def endClipMinus : Int := {int(ec.right.value)}"]
+    ft = _fn(cigar_tree, "_remove_terminal_segment_gaps")
+    ret = next(n for n in ast.walk(ft) if isinstance(n, ast.Return))
+    sl = ret.value.slice if isinstance(ret.value, ast.Subscript) else None
+    if not (isinstance(sl, ast.Slice) and isinstance(sl.lower, ast.Subscript) and isinstance(sl.upper, ast.BinOp) and isinstance(sl.upper.op, ast.Add)):
+        raise ValueError("_remove_terminal_segment_gaps: unexpected slice")
+    out += ["/-- `alignment[pos[trimLower] : pos[trimUpper] + trimPlus]` -/",
+            f"def trimLower : Int := {int(ast.literal_eval(sl.lower.slice))}",
+            f"def trimUpper : Int := {int(ast.literal_eval(sl.upper.left.slice))}",
+            f"def trimPlus : Int := {int(sl.upper.right.value)}"]
+    fp = _fn(cigar_tree, "_cigar_from_op_tuples")
+    aug = next((n for n in ast.walk(fp) if isinstance(n, ast.AugAssign)), None)
+    if aug is None or not isinstance(aug.value, ast.BinOp):
+        raise ValueError("_cigar_from_op_tuples: unexpected shape")
+    out += ["/-- the printer appends `str(count)` first, then the symbol -/",
+            f"def printerCountFirst : Bool := {'true' if ast.unparse(aug.value.left).startswith('str(') else 'false'}"]
+    # reader start values
+    rasg = {}
+    for n in r.body:
+        if isinstance(n, ast.Assign) and isinstance(n.targets[0], ast.Name):
+            rasg[n.targets[0].id] = ast.unparse(n.value)
+    out += ["def readerInit : List (String × String) := " + _lpairs([(k, rasg.get(k, "?")) for k in ("ref_pos", "seg_pos", "i")])]
+
+    # ---------------- alignment.py
+    atree = ast.parse(open(os.path.join(paths.SRC, "biotite/sequence/align/alignment.py")).read())
+    facts = []
+    gs = _fn(atree, "_gapped_str", "Alignment")
+    consts = [n.value for n in ast.walk(gs) if isinstance(n, ast.Constant) and isinstance(n.value, str) and n.value != ""]
+    cmpg = next((_cmp(n.test) for n in ast.walk(gs) if isinstance(n, ast.If)), None)
+    if consts != ["-"] and "-" not in consts or cmpg is None:
+        raise ValueError("_gapped_str: gap character / test not found")
+    facts.append(("gapped.gapChar", [c for c in consts if len(c) == 1][0]))
+    facts.append(("gapped.test", cmpg[1] + " " + cmpg[2]))
+    tfs = _fn(atree, "trace_from_strings", "Alignment")
+    g = _if_raising(tfs)
+    if len(g) != 1:
+        raise ValueError("trace_from_strings: expected one refusing guard")
+    c = _cmp(g[0][0])
+    facts.append(("trace_from_strings.guard", f"{c[1]} {c[2]} {g[0][1]}"))
+    tcmp = [_cmp(n.test) for n in ast.walk(tfs) if isinstance(n, ast.If) and not any(isinstance(b, ast.Raise) for b in n.body)]
+    facts.append(("trace_from_strings.gapTest", " ".join(tcmp[0][1:]) if tcmp else "?"))
+    inc = next((n for n in ast.walk(tfs) if isinstance(n, ast.AugAssign)), None)
+    facts.append(("trace_from_strings.increment", ast.unparse(inc.op).strip() + ast.unparse(inc.value) if inc is not None else "?"))
+    gc = _fn(atree, "get_codes")
+    dts = sorted({ast.unparse(k.value) for n in ast.walk(gc) if isinstance(n, ast.Call) for k in n.keywords if k.arg == "dtype"})
+    fills = sorted({ast.unparse(n.value) for n in ast.walk(gc) if isinstance(n, ast.Assign) and isinstance(n.targets[0], ast.Subscript)
+                    and ast.unparse(n.targets[0]) == "codes[i]"})
+    facts.append(("get_codes.dtype", ",".join(dts)))
+    facts.append(("get_codes.gapFill", ",".join(fills)))
+    gsym = _fn(atree, "get_symbols")
+    al = [ast.unparse(n.value) for n in ast.walk(gsym) if isinstance(n, ast.Assign) and ast.unparse(n.targets[0]) == "alphabet"]
+    loop = next((n for n in gsym.body if isinstance(n, ast.For)), None)
+    in_loop = loop is not None and any(isinstance(n, ast.Assign) and ast.unparse(n.targets[0]) == "alphabet" for n in ast.walk(loop))
+    facts.append(("get_symbols.alphabet", (al[0] if al else "?") + ("|per-row" if in_loop else "|once")))
+    for name in ("get_sequence_identity", "get_pairwise_sequence_identity"):
+        f = _fn(atree, name)
+        facts.append((name + ".defaults", ";".join(f"{a}={d}" for a, d in _defaults(f))))
+        modes = [ast.unparse(n.test.comparators[0]) for n in ast.walk(f) if isinstance(n, ast.If) and isinstance(n.test, ast.Compare)
+                 and ast.unparse(n.test.left) == "mode"]
+        facts.append((name + ".modes", ",".join(dict.fromkeys(modes))))
+        gg = [(_cmp(t), nm) for t, nm in _if_raising(f) if isinstance(t, ast.Compare)]
+        facts.append((name + ".guards", ";".join(f"{c[0]} {c[1]} {c[2]} {nm}" for c, nm in gg)))
+        facts.append((name + ".raises", ",".join(_raises(f))))
+    gi = _fn(atree, "get_sequence_identity")
+    mt = next((ast.unparse(n.test) for n in ast.walk(gi) if isinstance(n, ast.If) and "unique_symbols" in ast.unparse(n.test)), "?")
+    facts.append(("get_sequence_identity.match", mt))
+    sf = _fn(atree, "score")
+    facts.append(("score.defaults", ";".join(f"{a}={d}" for a, d in _defaults(sf))))
+    look = next((n for n in ast.walk(sf) if isinstance(n, ast.AugAssign) and isinstance(n.value, ast.Subscript)
+                 and ast.unparse(n.value.value) == "matrix"), None)
+    if look is None:
+        raise ValueError("score: matrix lookup not found")
+    names = [ast.unparse(e) for e in look.value.slice.elts]
+    sasg = {ast.unparse(n.targets[0]): ast.unparse(n.value) for n in ast.walk(sf) if isinstance(n, ast.Assign) and len(n.targets) == 1}
+    facts.append(("score.lookup", ",".join(sasg.get(x, x) for x in names)))
+    inner = [ast.unparse(n.iter) for n in ast.walk(sf) if isinstance(n, ast.For) and ast.unparse(n.target) == "j"]
+    facts.append(("score.innerRange", inner[0] if inner else "?"))
+    facts.append(("score.raises", ",".join(_raises(sf))))
+    gapadd = [ast.unparse(n.value) for n in ast.walk(sf) if isinstance(n, ast.AugAssign) and ast.unparse(n.value) in ("gap_ext", "gap_open")]
+    facts.append(("score.gapOrder", ",".join(gapadd)))
+    ftg = _fn(atree, "find_terminal_gaps")
+    src = ast.unparse(ftg)
+    m1 = re.search(r"firsts = \[pos\[(-?\d+)\] if len\(pos\) > (\d+) else (.+?) for", src)
+    m2 = re.search(r"lasts = \[pos\[(-?\d+)\] if len\(pos\) > (\d+) else (.+?) for", src)
+    m3 = re.search(r"return \(?np\.(\w+)\(firsts\)\.item\(\), np\.(\w+)\(lasts\)\.item\(\) \+ (\d+)\)?", src)
+    if not (m1 and m2 and m3):
+        raise ValueError("find_terminal_gaps: unexpected shape")
+    facts.append(("find_terminal_gaps.firsts", f"pos[{m1.group(1)}] if len>{m1.group(2)} else {m1.group(3)}"))
+    facts.append(("find_terminal_gaps.lasts", f"pos[{m2.group(1)}] if len>{m2.group(2)} else {m2.group(3)}"))
+    facts.append(("find_terminal_gaps.result", f"{m3.group(1)},{m3.group(2)}+{m3.group(3)}"))
+    rt = _fn(atree, "remove_terminal_gaps")
+    g = _if_raising(rt)
+    facts.append(("remove_terminal_gaps.guard", ";".join(" ".join(_cmp(t)) + " " + nm for t, nm in g)))
+    rg = _fn(atree, "remove_gaps")
+    facts.append(("remove_gaps.mask", ast.unparse(next(n.value for n in ast.walk(rg) if isinstance(n, ast.Assign)))))
+    gi2 = _fn(atree, "__getitem__", "Alignment")
+    facts.append(("getitem.raises", ",".join(_raises(gi2))))
+    facts.append(("getitem.integralChecks", str(sum(1 for n in ast.walk(gi2) if isinstance(n, ast.Call) and ast.unparse(n.func) == "isinstance"
+                                                   and "numbers.Integral" in ast.unparse(n.args[1])))))
+    # ---------------- fasta/convert.py
+    ctree = ast.parse(open(os.path.join(paths.SRC, "biotite/sequence/io/fasta/convert.py")).read())
+    ga, sa = _fn(ctree, "get_alignment"), _fn(ctree, "set_alignment")
+    facts.append(("get_alignment.defaults", ";".join(f"{a}={d}" for a, d in _defaults(ga))))
+    reps = [ast.unparse(n) for n in ast.walk(ga) if isinstance(n, ast.Call) and ast.unparse(n.func).endswith(".replace")]
+    facts.append(("get_alignment.replace", ";".join(sorted(set(reps)))))
+    loops = [ast.unparse(n.iter) for n in ast.walk(ga) if isinstance(n, ast.For)]
+    facts.append(("get_alignment.loops", ";".join(loops)))
+    facts.append(("set_alignment.guard", ";".join(" ".join(_cmp(t)) + " " + nm for t, nm in _if_raising(sa))))
+    # ---------------- multiple.pyx (text; the .pyx <-> .c <-> .so tie guarantees the binary matches it)
+    px = open(os.path.join(paths.SRC, "biotite/sequence/align/multiple.pyx")).read()
+
+    def func_text(name):
+        m = re.search(r"^def " + name + r"\(.*?(?=^def |\Z)", px, re.S | re.M)
+        if not m:
+            raise ValueError("multiple.pyx: function " + name + " not found")
+        return re.sub(r"#.*", "", m.group(0))
+    am, pa, rgp, dm = func_text("align_multiple"), func_text("_progressive_align"), func_text("_replace_gaps"), func_text("_get_distance_matrix")
+    sig = re.search(r"def align_multiple\((.*?)\):", am, re.S).group(1)
+    facts.append(("align_multiple.defaults", ";".join(x.strip() for x in re.sub(r"\s+", " ", sig).split(",") if "=" in x)))
+
+    def need(pat, text, what):
+        m = re.search(pat, text, re.S)
+        if not m:
+            raise ValueError("multiple.pyx: " + what + " not found")
+        return m
+    facts.append(("align_multiple.reorder", need(r"new_order\s*=\s*(np\.\w+\(order\))", am, "reordering").group(1)))
+    facts.append(("align_multiple.pick", re.sub(r"\s+", " ", need(r"aligned_seqs\s*=\s*(\[aligned_seqs\[pos\] for pos in new_order\])", am, "row picking").group(1))))
+    facts.append(("align_multiple.traceReorder", need(r"trace\s*=\s*(trace\[:,\s*new_order\])", am, "trace reordering").group(1).replace(" ", "")))
+    facts.append(("align_multiple.gapCode", need(r"gap_symbol_code\s*=\s*(new_alphabet\.encode\(gap_symbol\))", am, "gap code").group(1)))
+    facts.append(("align_multiple.gapTest", need(r"if seq_code\[i\]\s*(==|!=)\s*gap_symbol_code:\s*trace\[i,j\]\s*=\s*(-?\d+)", am, "gap test").group(1) + " " +
+                  need(r"if seq_code\[i\]\s*(==|!=)\s*gap_symbol_code:\s*trace\[i,j\]\s*=\s*(-?\d+)", am, "gap test").group(2)))
+    facts.append(("align_multiple.strip", re.sub(r"\s+", "", need(r"(code\[code\s*!=\s*gap_symbol_code\])", am, "gap stripping").group(1))))
+    facts.append(("progressive.leaf", re.sub(r"\s+", "", need(r"return np\.array\(\[tree_node\.index\].*?\),\s*\\?\s*(\[sequences\[tree_node\.index\][^\]]*\])", pa, "leaf case").group(1))))
+    cols = re.findall(r"for i in range\(len\((aligned_seqs\d)\)\):.*?alignment\.trace\[:,(\d)\]", pa, re.S)
+    facts.append(("progressive.traceColumns", ";".join(f"{a}:{b}" for a, b in cols)))
+    ret = need(r"return (np\.append\(\w+,\s*\w+\)),\s*\\?\s*(aligned_seqs1\s*\+\s*aligned_seqs2)", pa, "node return")
+    facts.append(("progressive.concat", re.sub(r"\s+", "", ret.group(1)) + ";" + re.sub(r"\s+", "", ret.group(2))))
+    facts.append(("progressive.children", re.sub(r"\s+", "", need(r"(child1,\s*child2\s*=\s*tree_node\.children)", pa, "children").group(1))))
+    rgm = need(r"if index\s*(==|!=)\s*(-?\d+):\s*new_seq_code_v\[i\]\s*=\s*(\w+)\s*else:\s*new_seq_code_v\[i\]\s*=\s*(\w+\[index\])", rgp, "_replace_gaps branches")
+    facts.append(("replace_gaps.branches", " ".join(rgm.groups())))
+    facts.append(("distance.scoreMax", re.sub(r"\s+", "", need(r"score_max\s*=\s*(\(scores_v\[i,i\]\s*\+\s*scores_v\[j,j\]\)\s*/\s*[\d.]+)", dm, "score_max").group(1))))
+    facts.append(("distance.guard", re.sub(r"\s+", " ", need(r"if (scores_v\[i,j\]\s*[<>=]+\s*score_rand):\s*raise (\w+)", dm, "distance guard").group(1)) + " " +
+                  need(r"if (scores_v\[i,j\]\s*[<>=]+\s*score_rand):\s*raise (\w+)", dm, "distance guard").group(2)))
+    facts.append(("distance.formula", re.sub(r"\s+", "", need(r"distances_v\[i,j\]\s*=\s*(-log\(.*?\)\s*\))", dm, "distance formula").group(1))))
+    facts.append(("distance.randDivisor", re.sub(r"\s+", "", need(r"score_rand\s*/=\s*(alignments\[i,j\]\.trace\.shape\[0\])", dm, "score_rand divisor").group(1))))
+    facts.append(("distance.gapTerms", ";".join(re.sub(r"\s+", "", x) for x in re.findall(r"score_rand\s*\+=\s*(gap_\w+_count\s*\*\s*gap_\w+)", dm))))
+    out += ["/-- literals, guards, defaults, step order and exception classes read from alignment.py, fasta/convert.py (ast) and",
+            "multiple.pyx (text) -/",
+            "def facts : List (String × String) := " + _lpairs(facts)]
+    return out
 
 
 def _reader_table(fn):
